@@ -112,6 +112,26 @@ CLAIMED.update({
                      "and signet at low heights (Cancun: helper absent)."),
 })
 
+CLAIMED.update({
+    "C02": dict(cat="exploration", sec="5/C02",
+                text="The reference machine is deterministic and defines the order of every list; each TLC-generated schedule runs on "
+                     "three real instances (two in one process with different hash-map seeds, one of them restarted right after a "
+                     "commit, and one in a child process) and the normalised raw answers of every call and every projection query are "
+                     "compared; pinned digests of a fixed corpus bind the tree to the reference of the same protocol/db version.",
+                note="JSON object member order canonicalised, mineTimestamp zeroed; golden digests only for equal declared versions",
+                tech="differential execution of TLC-generated schedules on 3 replicas + pinned digests; list orders defined by the TLA+ reference machine"),
+    "C09": dict(cat="exploration", sec="5/C09",
+                text="RpcSurface.tla models the slot/poison state machine (liveness reduces to: no handler panics or loops) and TLC "
+                     "enumerates the class partition of every parameter of every registered method x engine state from the real method "
+                     "table; every case is sent as raw JSON on its own task under a watchdog with a read probe after each request and "
+                     "a write round per group, plus ABI-valid/invalid precompile inputs and seeded random bytes as code/calldata/raw tx. "
+                     "The same monitor (panic/timeout = no matching action) is active in every trace-validated check.",
+                note="all byte strings cannot be enumerated: class partition + random sample; revm trusted beyond that; requests whose "
+                     "work is proportional to an explicit count (brc20_mine of 2^32 blocks) are not hangs; Bitcoin-node dependent "
+                     "precompile paths are out of scope",
+                tech="TLA+ state machine + TLC-enumerated request classes executed on the implementation under a crash/hang/wedge monitor"),
+})
+
 NOT_YET = {}
 
 NA = {
